@@ -44,7 +44,7 @@ ASSUMPTIONS = [
     "rotation axes are unit vectors; scale factors are non-zero",
     "float32 coordinates: results compared within 3e-5*(1+scale)",
 ]
-REQUIRED = ["transform_calls", "rotations_checked", "scales_checked", "translations_checked",
+REQUIRED = ["small_unit_trees_compared", "transform_calls", "rotations_checked", "scales_checked", "translations_checked",
             "centre_root_far", "centre_origin", "root_not_at_position_0", "instance_reused",
             "inverse_checked", "isometry_checked", "builders_checked", "composed_checked",
             "classmethod_checked", "translate_origin_checked", "singular_scalings", "tap_apply",
@@ -186,9 +186,13 @@ def expected(tree, t, center):
 def _compare(ctx, case, what, tree, out, t, center):
     want, c, A, root = expected(tree, t, center)
     got = xyz64(out)
-    scale = max(1.0, float(np.abs(xyz64(tree)).max()), float(np.abs(want).max()))
+    # (purely relative to the magnitudes involved: a neuron expressed in metres or millimetres is
+    # moved as exactly, relative to its size, as one expressed in micrometres)
+    scale = max(float(np.abs(xyz64(tree)).max()), float(np.abs(want).max()), 1e-30) / 2
+    if scale < 1e-2:
+        ctx.count("small_unit_trees_compared")
     err = float(np.abs(got - want).max()) if len(got) else 0.0
-    if not np.isfinite(got).all() or err > TOL * (1 + scale):
+    if not np.isfinite(got).all() or err > TOL * (1 + scale) or err > 2 * TOL * scale:
         i = int(np.unravel_index(np.nanargmax(np.abs(got - want)), got.shape)[0]) \
             if np.isfinite(got).all() else 0
         return ctx.violation(
@@ -466,7 +470,7 @@ def run(ctx):
                 ctx.case(case, klass="builders")
                 execute(ctx, case)
                 continue
-            geoms = ["far", "far", "plane", "gauss", "growth", "int", "big", "quarter"]
+            geoms = ["far", "far", "plane", "gauss", "growth", "int", "big", "quarter", "micro", "tiny"]
             rc = G.random_recipe(rng, max_n=G.size_ladder(ctx, k, 8, 40, 200), geoms=geoms)
             rc2 = G.random_recipe(rng, max_n=12, geoms=geoms)
             t = draw_transform(rng)
